@@ -8,7 +8,7 @@ tie:    T3 differential run of the extracted model against snoopy_filter_only_ui
         uid, complement, independence of the effective uid) is evaluated on every implementation verdict.
 """
 import json, os
-from vlib.core import hexs, unhex, corr_stream, VERIF, CheckError
+from vlib.core import hexs, hexlist, unhex, corr_stream, VERIF, CheckError
 from vlib.tr_filter import tr_filter
 from vlib.filt import AREA, UIDS, build_impl, probe, uid_list, malformed_list, near_misses, numeral, shrink_list, FAST_ASAN
 
@@ -254,6 +254,41 @@ def check(run):
         allcases = corp + cases
         res = corr_stream(run, AREA, exe, allcases, spec_line=spec_line, stream="uid", impl_env=FAST_ASAN)
     nv, npairs = classify(run, res, allcases, "uid", exe)
+    # concurrent callers (impl only): each thread evaluates its own one-filter chain over and over; every decision must equal the
+    # one the same chain gets alone (C14_real_uid: a function of the real uid and the list, nothing else)
+    mt = {"cases": 0}
+    if len(res["faults"]) <= 20:
+        rng2 = run.rng
+        iters = 600 if run.tier == "quick" else 5000
+        mtc = []
+        for r in (0, 1000, 2 ** 32 - 2):
+            A = uid_list(rng2, r, 200, False) + b",%d" % r            # the uid is the last of 201 entries
+            B = uid_list(rng2, r, 150, False)
+            C = b",".join(b"%d" % (r + 1 if r < 2 ** 32 - 2 else 7) for _ in range(80)) + b",%d,12" % r
+            mtc.append("mt\t%d\t7\t0\t%d\t%s" % (r, iters, hexlist([b"only_uid:" + A[:900].rsplit(b",", 1)[0] + b",%d" % r, b"exclude_uid:" + B[:900].rsplit(b",", 1)[0]])))
+            mtc.append("mt\t%d\t7\t0\t%d\t%s" % (r, iters, hexlist([b"exclude_uid:" + C, b"only_uid:" + B[:900].rsplit(b",", 1)[0], b"only_uid:" + C, b"only_root"])))
+        d = os.path.join(run.scratch, "mt")
+        os.makedirs(d, exist_ok=True)
+        cp = os.path.join(d, "cases.txt")
+        open(cp, "w").write("".join(c + "\n" for c in mtc))
+        outs = run.run_impl(exe, cp, os.path.join(d, "impl.out"), env=FAST_ASAN)
+        for c, o in zip(mtc, outs):
+            f = c.split("\t")
+            chains = [unhex(x) or b"" for x in f[5].split(",")]
+            if not o.startswith("ok\t"):
+                run.violation("fault:%s" % o.split("\t")[0], "sanitizer", "implementation faulted (%s) with %d threads evaluating uid filters concurrently under real uid %s" % (o, len(chains), f[1]),
+                              {"stream": "mt", "failing_input": c, "impl_output": o, "cases": [c]})
+                nv += 1
+                continue
+            bad = [(chains[i], x) for i, x in enumerate(o.split("\t")[1].split(",")) if x[1:] != "0"]
+            if bad:
+                ch, x = bad[0]
+                run.violation("mt:decision-changes-under-concurrency", "spec_violation",
+                              "%r decides %s alone under real uid %s, but %s of %d evaluations decided otherwise while %d other thread(s) evaluated other lists"
+                              % (ch[:100], "pass" if x[0] == "P" else "drop", f[1], x[1:], iters, len(chains) - 1),
+                              {"stream": "mt", "failing_input": c, "impl_output": o, "cases": [c]})
+                nv += 1
+        mt = {"cases": len(mtc), "iterations": iters}
     if not ok and nv == 0:
         run.violation("proof:%s" % failed, "proof", "proof obligation no longer checks: %s; %s\n%s" % (failed, "; ".join(n for n in run.notes if n.startswith("translator") or n.startswith("skeleton")) or "the translator recognised every statement (the regenerated constants themselves violate the side condition)", log[-1500:]),
                       {"theorem": failed, "coq_log": log[-3000:], "translator_notes": [n for n in run.notes if n.startswith("translator") or n.startswith("skeleton")]})
@@ -277,7 +312,7 @@ def check(run):
         "samples": [c[:300] for c in allcases[:: max(1, len(allcases) // 5)]][:5],
         "distribution": {"uids": UIDS, "corpus_cases": len(corp), "kinds": {k: sum(1 for m in meta if m["kind"] == k) for k in ("wf", "malformed", "root", "chain", "csv")},
                          "listed": sum(1 for c, m in wf if m["include"]), "not_listed": sum(1 for c, m in wf if not m["include"]), "max_entries": max([m["n"] for c, m in wf] or [0]),
-                         "complement_pairs": npairs, "mismatches": len(res["mismatch"]), "spec_failures": len(res["spec_bad"]), "impl_faults": len(res["faults"])},
+                         "complement_pairs": npairs, "concurrent": mt, "mismatches": len(res["mismatch"]), "spec_failures": len(res["spec_bad"]), "impl_faults": len(res["faults"])},
         "traces_validated_against_impl": len(allcases) - len(res["mismatch"]),
     })
     return run.finish(
@@ -299,6 +334,22 @@ def replay(run, path):
         print("proof-only violation (%s): re-run ./check C14 quick" % rep.get("theorem"))
         run.cleanup()
         return 1
+    mtc = [c for c in cases if c.startswith("mt\t")]
+    cases = [c for c in cases if not c.startswith("mt\t")]
+    mt_bad = 0
+    if mtc:
+        p = os.path.join(run.scratch, "replay-mt.txt")
+        open(p, "w").write("".join(c + "\n" for c in mtc))
+        for attempt in range(3):          # a race: a few attempts
+            outs = run.run_impl(exe, p, p + ".out", env=FAST_ASAN)
+            for c, o in zip(mtc, outs):
+                print("case:", "\t".join(c.split("\t")[:5]), [(unhex(x) or b"")[:60] for x in c.split("\t")[5].split(",")], "\n impl: ", o)
+            if any((not o.startswith("ok\t")) or any(x[1:] != "0" for x in o.split("\t")[1].split(",")) for o in outs):
+                mt_bad = 1
+                break
+        if not cases:
+            run.cleanup()
+            return mt_bad
     res = corr_stream(run, AREA, exe, cases, spec_line=spec_line, stream="replay", impl_env=FAST_ASAN)
     for i, c in enumerate(cases):
         f = c.split("\t")
@@ -308,4 +359,4 @@ def replay(run, path):
     nv, _ = classify(run, res, cases, "replay")
     print("spec failures: %d, faults: %d, mismatches: %d" % (len(res["spec_bad"]), len(res["faults"]), len(res["mismatch"])))
     run.cleanup()
-    return 1 if nv or res["mismatch"] else 0
+    return 1 if nv or res["mismatch"] or mt_bad else 0
